@@ -49,6 +49,7 @@ func c13TLexer(ctx *core.Ctx, idx int) core.Result {
 	r := core.CaseRng(ctx.Seed, "C13/tlexer", idx)
 	var res core.Result
 	var input string
+	long := false
 	switch r.Intn(4) {
 	case 0:
 		cs := corpus()
@@ -57,6 +58,21 @@ func c13TLexer(ctx *core.Ctx, idx int) core.Result {
 			a := r.Intn(len(input) - 200)
 			input = input[a : a+200]
 		}
+	case 1:
+		// long input: the replay buffer and the read position go far past any small constant
+		long = true
+		var sb strings.Builder
+		for k := r.Range(300, 900); k > 0; k-- {
+			switch r.Intn(6) {
+			case 0:
+				sb.WriteString(fmt.Sprintf("%d ", r.Intn(1000)))
+			case 1:
+				sb.WriteString([]string{"+ ", "( ", ") ", "== ", ", ", "-> ", "\n", "[ ", "] "}[r.Intn(9)])
+			default:
+				sb.WriteString(fmt.Sprintf("j%c%c ", 'a'+r.Intn(26), 'a'+r.Intn(26)))
+			}
+		}
+		input = sb.String()
 	default:
 		input = genLexText(r)
 	}
@@ -73,6 +89,11 @@ func c13TLexer(ctx *core.Ctx, idx int) core.Result {
 	var stack []int
 	var ops []string
 	nops := r.Range(5, 120)
+	weights := []int{50, 20, 15, 15}
+	if long {
+		nops = r.Range(500, 3000)
+		weights = []int{68, 12, 8, 12}
+	}
 	fail := func(d string) core.Result {
 		res.Verdict = core.Violated
 		res.Viol = &core.Violation{Monitor: "tlexer-model", Detail: d, Input: map[string]any{"text": input, "ops": strings.Join(ops, " ")}}
@@ -82,7 +103,7 @@ func c13TLexer(ctx *core.Ctx, idx int) core.Result {
 	func() {
 		defer func() { pan = recover() }()
 		for i := 0; i < nops; i++ {
-			op := r.Pick(50, 20, 15, 15)
+			op := r.Pick(weights...)
 			if (op == 2 || op == 3) && len(stack) == 0 {
 				op = 1
 			}
@@ -113,8 +134,9 @@ func c13TLexer(ctx *core.Ctx, idx int) core.Result {
 				tl.Commit()
 				stack = stack[:len(stack)-1]
 			}
-			if tl.VerifSnapshotDepth() != len(stack) || tl.VerifReadPos() != cur {
-				res = fail(fmt.Sprintf("op %d: snapshot depth %d read position %d, model %d %d", i, tl.VerifSnapshotDepth(), tl.VerifReadPos(), len(stack), cur))
+			// (the read position inside the replay buffer is not compared: a buffer may legally be compacted)
+			if tl.VerifSnapshotDepth() != len(stack) {
+				res = fail(fmt.Sprintf("op %d: snapshot depth %d, model %d", i, tl.VerifSnapshotDepth(), len(stack)))
 				return
 			}
 			if cur >= 0 {
@@ -411,8 +433,13 @@ func c13Comb(ctx *core.Ctx, idx int) core.Result {
 	// token string over the alphabet
 	var sb strings.Builder
 	n := r.Range(0, 12)
+	long := r.Chance(1, 25)
+	if long {
+		// a long token stream and a start far into it: buffer positions beyond any small constant
+		n = r.Range(280, 700)
+	}
 	for i := 0; i < n; i++ {
-		if r.Chance(1, 40) {
+		if r.Chance(1, 40) && !long {
 			sb.WriteString("@") // lexer error token
 		} else {
 			sb.WriteString(c13Alphabet[r.Intn(len(c13Alphabet))])
@@ -431,6 +458,10 @@ func c13Comb(ctx *core.Ctx, idx int) core.Result {
 	start := 0
 	if len(toks) > 2 {
 		start = r.Intn(len(toks) / 2)
+	}
+	if long && len(toks) > 280 {
+		start = r.Range(250, len(toks)-12)
+		res.Add("long_stream_parses", 1)
 	}
 	tl := lexer.NewTLexer(input)
 	for i := 0; i < start; i++ {
@@ -462,8 +493,9 @@ func c13Comb(ctx *core.Ctx, idx int) core.Result {
 		if strings.Join(got, "|") != strings.Join(want.nodes, "|") {
 			return fail(fmt.Sprintf("results %q, recogniser %q", got, want.nodes))
 		}
-		if tl.VerifReadPos() != want.pos-1 {
-			return fail(fmt.Sprintf("parser ended at token %d, recogniser at %d", tl.VerifReadPos()+1, want.pos))
+		// end position through the public observers (the buffer index itself is an implementation detail)
+		if want.pos >= 1 && tl.From() != toks[want.pos-1].From {
+			return fail(fmt.Sprintf("parser ended on the token at byte %d, recogniser at token %d (byte %d)", tl.From(), want.pos-1, toks[want.pos-1].From))
 		}
 		if want.pos < len(toks) {
 			if !tl.Next() {
@@ -491,12 +523,12 @@ func c13Comb(ctx *core.Ctx, idx int) core.Result {
 func init() {
 	register(&core.Property{
 		ID:          "C13",
-		Rule:        "(1) operation histories Next/Snapshot/Rollback/Commit (5..120 ops, rollback/commit only with an open snapshot) on the real TLexer over token-soup and corpus texts, every observer compared with a fresh plain scan after each op; (2) random parser expressions (depth 1..4) over Accept/Ok/And/Seq/OneOf/Choose/Any/SeparatedBy/SurroundedBy/Assert/Not/Drop/Fmap on a 4-symbol alphabet, run on the real TLexer from a random start token against an ordered-choice recogniser: accept/reject, result nodes, end position, following token, snapshot-stack balance. non-trivial = history with a rollback over >3 tokens / expression with >= 3 combinators on >3 tokens; distinct by (text, ops) / (expression, text).",
+		Rule:        "(1) operation histories Next/Snapshot/Rollback/Commit (5..120 ops, and 500..3000 ops over streams of 300..900 tokens; rollback/commit only with an open snapshot) on the real TLexer over token-soup and corpus texts, every observer compared with a fresh plain scan after each op; (2) random parser expressions (depth 1..4) over Accept/Ok/And/Seq/OneOf/Choose/Any/SeparatedBy/SurroundedBy/Assert/Not/Drop/Fmap on a 4-symbol alphabet (streams of 0..12 tokens, one in 25 of 280..700 tokens with the start beyond token 250), run on the real TLexer from a random start token against an ordered-choice recogniser: accept/reject, result nodes, end position, following token, snapshot-stack balance. non-trivial = history with a rollback over >3 tokens / expression with >= 3 combinators on >3 tokens; distinct by (text, ops) / (expression, text).",
 		Assumptions: []string{"the grammar's own side conditions are respected by the generator: Choose ends in an Ok gate, Not only under Assert, Any/SeparatedBy iterations consume at least one token", "committed choice (a failing OnSuccess fails the whole Choose/Any) is taken from the package documentation as the recogniser's semantics"},
 		Families: []core.Family{
 			{Name: "tlexer", Count: countFn(150000, 4000000), Run: c13TLexer},
 			{Name: "comb", Count: countFn(600000, 15000000), Run: c13Comb},
 		},
-		Floors: []core.Floor{{Key: "tlexer_ops", Quick: 1000000, Thor: 100000000}, {Key: "rollbacks", Quick: 100000, Thor: 10000000}, {Key: "accepted_parses", Quick: 30000, Thor: 3000000}, {Key: "consuming_parses", Quick: 10000, Thor: 1000000}, {Key: "rejected_parses", Quick: 20000, Thor: 2000000}, {Key: "tag:comb:", Quick: 10, Thor: 10}},
+		Floors: []core.Floor{{Key: "tlexer_ops", Quick: 1000000, Thor: 100000000}, {Key: "rollbacks", Quick: 100000, Thor: 10000000}, {Key: "accepted_parses", Quick: 30000, Thor: 3000000}, {Key: "consuming_parses", Quick: 10000, Thor: 1000000}, {Key: "rejected_parses", Quick: 20000, Thor: 2000000}, {Key: "long_stream_parses", Quick: 10000, Thor: 300000}, {Key: "tag:comb:", Quick: 10, Thor: 10}},
 	})
 }
